@@ -29,6 +29,15 @@ pub fn generate(thorough: bool, seed: u64, em: &mut Emitter) {
         let mut case = present_case(&tok, &token, &clear, &redact, kb, 3, verifier);
         case["judge_disclosures"] = json!(true);
         case["nontrivial"] = json!(true);
+        if i % 2 == 1 && !redact.is_empty() {
+            // staged: build, redact some more on the same Holder, build again (twice); each KB-JWT must commit to
+            // the presentation it is attached to, and the last build is the presentation for the whole set
+            let cut1 = r.below(redact.len() + 1);
+            let cut2 = cut1 + r.below(redact.len() - cut1 + 1);
+            case["redact"] = json!(redact[..cut1].to_vec());
+            case["redact_after"] = json!([redact[cut1..cut2].to_vec(), redact[cut2..].to_vec()]);
+            case["tag"] = json!("staged_redaction");
+        }
         em.case("present", case);
     }
 }
